@@ -2,5 +2,6 @@ SPECIFICATION Spec
 CONSTANTS
   MaxOps = 2
   Tables = {1, 2, 3}
+  WorldSel = {0}
   KnownWords <- MCKnown
 INVARIANTS MechRefinesProp SameText
